@@ -2481,9 +2481,12 @@ def demoOpq : V2.Opq :=
   { DecodeActivationClaims := fun _ => none, RenamingSubject_ToSubject := fun x => some x,
     json_UnmarshalHeader := fun _ _ => ({ f_Type := "JWT".toList, f_Algorithm := "ed25519-nkey".toList }, false),
     decodeString := fun _ => some ([], false),
-    loadOperator := fun _ _ => none, loadUser := fun _ _ => none, loadActivation := fun _ _ => none,
-    loadAuthorizationRequest := fun _ _ => none, loadAuthorizationResponse := fun _ _ => none,
-    loadAccount := fun _ _ => some (some default, false),
+    json_Unmarshalv1OperatorClaims := fun _ x => (x, true), json_UnmarshalOperatorClaims := fun _ x => (x, true),
+    json_Unmarshalv1AccountClaims := fun _ x => (x, true), json_UnmarshalAccountClaims := fun _ x => (x, false),
+    json_Unmarshalv1UserClaims := fun _ x => (x, true), json_UnmarshalUserClaims := fun _ x => (x, true),
+    json_Unmarshalv1ActivationClaims := fun _ x => (x, true), json_UnmarshalActivationClaims := fun _ x => (x, true),
+    json_UnmarshalAuthorizationRequestClaims := fun _ x => (x, true),
+    json_UnmarshalAuthorizationResponseClaims := fun _ x => (x, true),
     json_Unmarshalidentifier := fun _ id => ({ id with f_GenericFields := { id.f_GenericFields with f_Type := "account".toList, f_Version := 2 } }, false),
     json_UnmarshalGenericClaims := fun _ g => (g, true),
     strconv_Atoi := fun _ => none, nkeys_IsValidPublicAccountKey := fun _ => true, url_Parse := fun _ => none,
@@ -2497,7 +2500,8 @@ def demoOpq : V2.Opq :=
     KeyPair_Verify := fun _ text _ => !(text == strBytes "a.b".toList),
     ClaimsData_encode := fun _ _ _ => none, sort_SortExports := fun x => x, sort_SortImports := fun x => x }
 
-example : V2.Decode "a.b.c".toList demoOpq = some (some (.AccountClaims default), false) := by decide
+example : (match V2.Decode "a.b.c".toList demoOpq with
+    | some (some (.AccountClaims _), false) => true | _ => false) = true := by decide
 
 /-! ## C02 / C12: the per-kind part of `Encode` (subject-role test, sorting, kind stamp), as translated
 
@@ -2631,14 +2635,14 @@ theorem gen_loadClaims_accepts (opq : V2.Opq) (data : List Int) (ver : Int) (c :
     let k := identKind r.1
     let v := identVersion r.1
     r.2 = false ∧ v ≤ 2 ∧
-    ((k = "operator".toList ∧ ver = v ∧ ∃ x, opq.loadOperator data v = some (some x, false) ∧ c = .OperatorClaims x) ∨
-     (k = "account".toList ∧ ver = v ∧ ∃ x, opq.loadAccount data v = some (some x, false) ∧ c = .AccountClaims x) ∨
-     (k = "user".toList ∧ ver = v ∧ ∃ x, opq.loadUser data v = some (some x, false) ∧ c = .UserClaims x) ∨
-     (k = "activation".toList ∧ ver = v ∧ ∃ x, opq.loadActivation data v = some (some x, false) ∧ c = .ActivationClaims x) ∨
+    ((k = "operator".toList ∧ ver = v ∧ ∃ x, V2.loadOperator data v opq = some (some x, false) ∧ c = .OperatorClaims x) ∨
+     (k = "account".toList ∧ ver = v ∧ ∃ x, V2.loadAccount data v opq = some (some x, false) ∧ c = .AccountClaims x) ∨
+     (k = "user".toList ∧ ver = v ∧ ∃ x, V2.loadUser data v opq = some (some x, false) ∧ c = .UserClaims x) ∨
+     (k = "activation".toList ∧ ver = v ∧ ∃ x, V2.loadActivation data v opq = some (some x, false) ∧ c = .ActivationClaims x) ∨
      (k = "authorization_request".toList ∧ ver = v ∧
-        ∃ x, opq.loadAuthorizationRequest data v = some (some x, false) ∧ c = .AuthorizationRequestClaims x) ∨
+        ∃ x, V2.loadAuthorizationRequest data v opq = some (some x, false) ∧ c = .AuthorizationRequestClaims x) ∨
      (k = "authorization_response".toList ∧ ver = v ∧
-        ∃ x, opq.loadAuthorizationResponse data v = some (some x, false) ∧ c = .AuthorizationResponseClaims x) ∨
+        ∃ x, V2.loadAuthorizationResponse data v opq = some (some x, false) ∧ c = .AuthorizationResponseClaims x) ∨
      (k ∉ ["operator".toList, "account".toList, "user".toList, "activation".toList, "authorization_request".toList,
            "authorization_response".toList, "cluster".toList, "server".toList] ∧ ver = -1 ∧
         ∃ g, opq.json_UnmarshalGenericClaims data default = (g, false) ∧ c = .GenericClaims g)) := by
@@ -3072,6 +3076,199 @@ theorem v2_skKeys (sk : GoMap Str (Option V2.I_Scope)) :
     | nil => intro ks; simp
     | cons e es ih => intro ks; simp [ih]
   simp [V2.SigningKeys_Keys, forRange, forRangeFrom_fold _ _ hb, hf]
+
+/-! ## C04 / C05: the six typed loaders, as translated
+
+`json.Unmarshal` into each struct type is a parameter; what is translated and proved is everything around it: which
+struct the payload is read into for which version, what the struct is pre-set to before reading, that a version-1
+payload goes through `migrateV1` and nothing else, that any version other than 1 and 2 is refused, and the two extra
+refusals of the authorization loaders (a conflicting `nats.type`, a `nats.version` above the verified one). -/
+
+/-- a loader of the `switch version` shape returns claims only for version 1 (read into the v1 struct, then migrated)
+or version 2 (read into the v2 struct) -/
+theorem gen_loadOperator_accepts (opq : V2.Opq) (data : List Int) (v : Int) (x : V2.T_OperatorClaims)
+    (h : V2.loadOperator data v opq = some (some x, false)) :
+    (v = 1 ∧ ∃ o, opq.json_Unmarshalv1OperatorClaims data default = (o, false) ∧
+        V2.v1OperatorClaims_migrateV1 o = some (x, false)) ∨
+    (v = 2 ∧ opq.json_UnmarshalOperatorClaims data default = (x, false)) := by
+  unfold V2.loadOperator V2.v1OperatorClaims_Migrate at h
+  by_cases h1 : v = 1
+  · subst h1
+    rcases hu : opq.json_Unmarshalv1OperatorClaims data default with ⟨o, e⟩
+    cases e
+    case true => simp [hu] at h
+    rcases hm : V2.v1OperatorClaims_migrateV1 o with _ | ⟨y, e⟩
+    · simp [hu, hm] at h
+    simp [hu, hm] at h
+    exact Or.inl ⟨rfl, o, rfl, by rw [hm, h.1, h.2]⟩
+  · by_cases h2 : v = 2
+    · subst h2
+      rcases hu : opq.json_UnmarshalOperatorClaims data default with ⟨o, e⟩
+      cases e
+      case true => simp [hu] at h
+      simp [hu] at h
+      exact Or.inr ⟨rfl, by rw [h]⟩
+    · simp [h1, h2] at h
+
+theorem gen_loadUser_accepts (opq : V2.Opq) (data : List Int) (v : Int) (x : V2.T_UserClaims)
+    (h : V2.loadUser data v opq = some (some x, false)) :
+    (v = 1 ∧ ∃ o, opq.json_Unmarshalv1UserClaims data
+          { (default : V2.T_v1UserClaims) with f_v1User := { (default : V2.T_v1User) with
+              f_Limits := { f_UserLimits := default, f_NatsLimits := { f_Subs := -1, f_Data := -1, f_Payload := -1 } },
+              f_Max := -1 } } = (o, false) ∧
+        V2.v1UserClaims_migrateV1 o = some (x, false)) ∨
+    (v = 2 ∧ opq.json_UnmarshalUserClaims data default = (x, false)) := by
+  unfold V2.loadUser V2.v1UserClaims_Migrate at h
+  by_cases h1 : v = 1
+  · subst h1
+    simp only [Option.pure_def, Option.bind_eq_bind, beq_self_eq_true, if_true] at h
+    generalize hpre : ({ (default : V2.T_v1UserClaims) with f_v1User := _ } : V2.T_v1UserClaims) = pre at h
+    rcases hu : opq.json_Unmarshalv1UserClaims data pre with ⟨o, e⟩
+    cases e
+    case true => simp [hu] at h
+    rcases hm : V2.v1UserClaims_migrateV1 o with _ | ⟨y, e⟩
+    · simp [hu, hm] at h
+    simp [hu, hm] at h
+    refine Or.inl ⟨rfl, o, ?_, by rw [hm, h.1, h.2]⟩
+    rw [← hu, ← hpre]; rfl
+  · by_cases h2 : v = 2
+    · subst h2
+      rcases hu : opq.json_UnmarshalUserClaims data default with ⟨o, e⟩
+      cases e
+      case true => simp [hu] at h
+      simp [hu] at h
+      exact Or.inr ⟨rfl, by rw [h]⟩
+    · simp [h1, h2] at h
+
+theorem gen_loadActivation_accepts (opq : V2.Opq) (data : List Int) (v : Int) (x : V2.T_ActivationClaims)
+    (h : V2.loadActivation data v opq = some (some x, false)) :
+    (v = 1 ∧ ∃ o, opq.json_Unmarshalv1ActivationClaims data
+          { (default : V2.T_v1ActivationClaims) with f_v1NatsActivation :=
+              { (default : V2.T_v1NatsActivation) with f_Max := -1, f_Payload := -1 } } = (o, false) ∧
+        V2.v1ActivationClaims_migrateV1 o = some (x, false)) ∨
+    (v = 2 ∧ opq.json_UnmarshalActivationClaims data default = (x, false)) := by
+  unfold V2.loadActivation V2.v1ActivationClaims_Migrate at h
+  by_cases h1 : v = 1
+  · subst h1
+    simp only [Option.pure_def, Option.bind_eq_bind, beq_self_eq_true, if_true] at h
+    generalize hpre : ({ (default : V2.T_v1ActivationClaims) with f_v1NatsActivation := _ } : V2.T_v1ActivationClaims) = pre at h
+    rcases hu : opq.json_Unmarshalv1ActivationClaims data pre with ⟨o, e⟩
+    cases e
+    case true => simp [hu] at h
+    rcases hm : V2.v1ActivationClaims_migrateV1 o with _ | ⟨y, e⟩
+    · simp [hu, hm] at h
+    simp [hu, hm] at h
+    refine Or.inl ⟨rfl, o, ?_, by rw [hm, h.1, h.2]⟩
+    rw [← hu, ← hpre]; rfl
+  · by_cases h2 : v = 2
+    · subst h2
+      rcases hu : opq.json_UnmarshalActivationClaims data default with ⟨o, e⟩
+      cases e
+      case true => simp [hu] at h
+      simp [hu] at h
+      exact Or.inr ⟨rfl, by rw [h]⟩
+    · simp [h1, h2] at h
+
+/-- the account loader: as above; a version-2 payload is read into a struct whose signing-key map is allocated, and
+tiered JetStream limits clear the flat ones -/
+theorem gen_loadAccount_accepts (opq : V2.Opq) (data : List Int) (v : Int) (x : V2.T_AccountClaims)
+    (h : V2.loadAccount data v opq = some (some x, false)) :
+    (v = 1 ∧ ∃ o, opq.json_Unmarshalv1AccountClaims data default = (o, false) ∧
+        V2.v1AccountClaims_migrateV1 o = some (x, false)) ∨
+    (v = 2 ∧ ∃ a, opq.json_UnmarshalAccountClaims data
+          { (default : V2.T_AccountClaims) with f_Account := { (default : V2.T_Account) with f_SigningKeys := some [] } }
+            = (a, false) ∧
+        x = if mapLen a.f_Account.f_Limits.f_JetStreamTieredLimits > 0 then
+              { a with f_Account := { a.f_Account with f_Limits := { a.f_Account.f_Limits with
+                  f_JetStreamLimits := default } } }
+            else a) := by
+  unfold V2.loadAccount V2.v1AccountClaims_Migrate at h
+  by_cases h1 : v = 1
+  · subst h1
+    rcases hu : opq.json_Unmarshalv1AccountClaims data default with ⟨o, e⟩
+    cases e
+    case true => simp [hu] at h
+    rcases hm : V2.v1AccountClaims_migrateV1 o with _ | ⟨y, e⟩
+    · simp [hu, hm] at h
+    simp [hu, hm] at h
+    exact Or.inl ⟨rfl, o, rfl, by rw [hm, h.1, h.2]⟩
+  · by_cases h2 : v = 2
+    · subst h2
+      simp only [Option.pure_def, Option.bind_eq_bind] at h
+      generalize hpre : ({ (default : V2.T_AccountClaims) with f_Account := _ } : V2.T_AccountClaims) = pre at h
+      rcases hu : opq.json_UnmarshalAccountClaims data pre with ⟨a, e⟩
+      cases e
+      case true => simp [hu] at h
+      refine Or.inr ⟨rfl, a, ?_, ?_⟩
+      · rw [← hu, ← hpre]; rfl
+      · by_cases ht : mapLen a.f_Account.f_Limits.f_JetStreamTieredLimits > 0 <;>
+          simp [hu, ht] at h <;> simp only [ht, if_true, if_false] <;> rw [← h] <;> rfl
+    · simp [h1, h2] at h
+
+/-- the authorization loaders: the struct the reader filled, unless it declares another kind or a version above the
+one the token is identified and verified with -/
+theorem gen_loadAuthRequest_accepts (opq : V2.Opq) (data : List Int) (v : Int) (x : V2.T_AuthorizationRequestClaims)
+    (h : V2.loadAuthorizationRequest data v opq = some (some x, false)) :
+    opq.json_UnmarshalAuthorizationRequestClaims data default = (x, false) ∧
+    (x.f_AuthorizationRequest.f_GenericFields.f_Type = [] ∨
+      x.f_AuthorizationRequest.f_GenericFields.f_Type = "authorization_request".toList) ∧
+    x.f_AuthorizationRequest.f_GenericFields.f_Version ≤ v := by
+  unfold V2.loadAuthorizationRequest at h
+  rcases hu : opq.json_UnmarshalAuthorizationRequestClaims data default with ⟨a, e⟩
+  cases e
+  case true => simp [hu] at h
+  have e5 : ("authorization_request".toList : Str) =
+      ['a', 'u', 't', 'h', 'o', 'r', 'i', 'z', 'a', 't', 'i', 'o', 'n', '_', 'r', 'e', 'q', 'u', 'e', 's', 't'] := by decide
+  simp only [hu, Option.pure_def, Option.bind_eq_bind, Bool.false_eq_true, if_false] at h
+  by_cases ht : a.f_AuthorizationRequest.f_GenericFields.f_Type = [] <;>
+    by_cases ht2 : a.f_AuthorizationRequest.f_GenericFields.f_Type =
+      ['a', 'u', 't', 'h', 'o', 'r', 'i', 'z', 'a', 't', 'i', 'o', 'n', '_', 'r', 'e', 'q', 'u', 'e', 's', 't'] <;>
+    by_cases hv : a.f_AuthorizationRequest.f_GenericFields.f_Version > v <;>
+    simp [ht, ht2, hv] at h <;> subst h <;> simp [e5, ht, ht2] <;> omega
+
+theorem gen_loadAuthResponse_accepts (opq : V2.Opq) (data : List Int) (v : Int) (x : V2.T_AuthorizationResponseClaims)
+    (h : V2.loadAuthorizationResponse data v opq = some (some x, false)) :
+    opq.json_UnmarshalAuthorizationResponseClaims data default = (x, false) ∧
+    (x.f_AuthorizationResponse.f_GenericFields.f_Type = [] ∨
+      x.f_AuthorizationResponse.f_GenericFields.f_Type = "authorization_response".toList) ∧
+    x.f_AuthorizationResponse.f_GenericFields.f_Version ≤ v := by
+  unfold V2.loadAuthorizationResponse at h
+  rcases hu : opq.json_UnmarshalAuthorizationResponseClaims data default with ⟨a, e⟩
+  cases e
+  case true => simp [hu] at h
+  have e6 : ("authorization_response".toList : Str) =
+      ['a', 'u', 't', 'h', 'o', 'r', 'i', 'z', 'a', 't', 'i', 'o', 'n', '_', 'r', 'e', 's', 'p', 'o', 'n', 's', 'e'] := by decide
+  simp only [hu, Option.pure_def, Option.bind_eq_bind, Bool.false_eq_true, if_false] at h
+  by_cases ht : a.f_AuthorizationResponse.f_GenericFields.f_Type = [] <;>
+    by_cases ht2 : a.f_AuthorizationResponse.f_GenericFields.f_Type =
+      ['a', 'u', 't', 'h', 'o', 'r', 'i', 'z', 'a', 't', 'i', 'o', 'n', '_', 'r', 'e', 's', 'p', 'o', 'n', 's', 'e'] <;>
+    by_cases hv : a.f_AuthorizationResponse.f_GenericFields.f_Version > v <;>
+    simp [ht, ht2, hv] at h <;> subst h <;> simp [e6, ht, ht2] <;> omega
+
+/-- **the version gate, end to end (translated `loadClaims` + translated loaders).** Whatever `loadClaims` accepts:
+an operator, account, user or activation was read as version 1 or 2 — nothing below, nothing above; an authorization
+request/response declares no version above the reported one (which is at most 2); generic claims report −1. -/
+theorem gen_loadClaims_version (opq : V2.Opq) (data : List Int) (ver : Int) (c : V2.I_Claims)
+    (h : V2.loadClaims data opq = some (ver, some c, false)) :
+    match c with
+    | .OperatorClaims _ | .AccountClaims _ | .UserClaims _ | .ActivationClaims _ => ver = 1 ∨ ver = 2
+    | .AuthorizationRequestClaims x => x.f_AuthorizationRequest.f_GenericFields.f_Version ≤ ver ∧ ver ≤ 2
+    | .AuthorizationResponseClaims x => x.f_AuthorizationResponse.f_GenericFields.f_Version ≤ ver ∧ ver ≤ 2
+    | .GenericClaims _ => ver = -1 := by
+  have g := gen_loadClaims_accepts opq data ver c h
+  simp only at g
+  obtain ⟨_, hv2, g⟩ := g
+  rcases g with ⟨_, hv, x, hx, rfl⟩ | ⟨_, hv, x, hx, rfl⟩ | ⟨_, hv, x, hx, rfl⟩ | ⟨_, hv, x, hx, rfl⟩ |
+      ⟨_, hv, x, hx, rfl⟩ | ⟨_, hv, x, hx, rfl⟩ | ⟨_, hv, g, _, rfl⟩
+  · rcases gen_loadOperator_accepts _ _ _ _ hx with ⟨h1, _⟩ | ⟨h2, _⟩ <;> simp only <;> omega
+  · rcases gen_loadAccount_accepts _ _ _ _ hx with ⟨h1, _⟩ | ⟨h2, _⟩ <;> simp only <;> omega
+  · rcases gen_loadUser_accepts _ _ _ _ hx with ⟨h1, _⟩ | ⟨h2, _⟩ <;> simp only <;> omega
+  · rcases gen_loadActivation_accepts _ _ _ _ hx with ⟨h1, _⟩ | ⟨h2, _⟩ <;> simp only <;> omega
+  · have := (gen_loadAuthRequest_accepts _ _ _ _ hx).2.2
+    simp only; omega
+  · have := (gen_loadAuthResponse_accepts _ _ _ _ hx).2.2
+    simp only; omega
+  · simp only; exact hv
 
 /-! ## C01: `DecodeGeneric`, as translated
 
